@@ -161,6 +161,19 @@ CLAIMS["C08"] = dict(
         "the repository to structurally equal grammars.",
    design="6/C08", technique="Coq lifting lemma + vm_compute instance of the generator model + staged regeneration on the implementation",
    note="The reader side (regenerated parser reads the meta-grammar to the same grammar) is established by execution, not inside Coq.")
+CLAIMS["C01"] = dict(
+   text="Reference semantics in Coq (Sem/Peg.v: sequence, ordered choice with commitment, optional, greedy */+, s.e+, &/!, "
+        "cut, forced, documented value rule) with theorems (Props/C01.v): the relation is FUNCTIONAL (one outcome per item and "
+        "position) and successful matches never end before they start -- for all grammars, inputs, action interpretations. "
+        "The executable evaluator Sem/PegEval.v is run INSIDE Coq on every explored case and must equal the real parser's "
+        "result (value, tokens consumed, failure, forced error); the generator and runtime models are tied to the code by "
+        "K-gen (text equality) and K-run (trace equality). Explored: hand-written shapes (actions in groups, outer actions, "
+        "&& on names, cuts with actions, look-alike groups) and random well-formed grammars x all token sequences up to "
+        "length 3-4.",
+   design="6/C01", technique="Coq reference semantics (determinism proved) + per-case evaluation of the reference inside Coq against the implementation + K-gen/K-run",
+   note="Partial: the universal theorem run(gen g) = peg g (soundness/completeness through cache and helper rules) is not "
+        "proved; for the explored cases the equality is machine-checked case by case. The evaluator's agreement with the "
+        "relation is by construction, not yet a theorem. Known finding: lookahead over a forced item consumes.")
 NOT_YET = {}
 NOT_APPLICABLE = {
  "C06": "equates the generated parser with CPython's own C parser/ast.parse, for which no executable model exists "
